@@ -30,6 +30,7 @@
 (*   Assemble /    tbtc.go AssembleDKGResult (convertPubKeyToChainFormat,   *)
 (*   AssembleFails   convertSignaturesToChainFormat, computeOperatorsIDsHash)*)
 (*   Precheck      SubmitResult: IsDKGResultValid = validate() on chain     *)
+(*   Superseded    SubmitResult: context done while waiting for the block   *)
 (*   Submit        SubmitDKGResult -> EcdsaDkg.submitResult                 *)
 (*   Approve       WalletRegistry.approveDkgResult -> Wallets.addWallet     *)
 (*   RegisterSigner pkg/tbtc/dkg.go finalSigningGroup + tbtc.go             *)
@@ -385,6 +386,13 @@ Submit ==
           ELSE pc' = "failed" /\ outcome' = "Unexpected submitter index"
     /\ UNCHANGED <<inputs, own, accepted, result, verdict, registry, client>>
 
+\* the member waits for its submission block (current block + (memberIndex-1) * step); if the context is done
+\* by then (somebody else's result was seen) it returns without submitting:  if ctx.Err() != nil { return nil }
+Superseded ==
+    /\ pc = "submit"
+    /\ pc' = "aborted" /\ outcome' = "superseded while waiting"
+    /\ UNCHANGED <<inputs, own, accepted, result, verdict, registry, client>>
+
 \* approveDkgResult: wallets.addWallet(result.membersHash, result.groupPubKey)
 Approve ==
     /\ pc = "challenge"
@@ -405,7 +413,7 @@ RegisterSigner ==
     /\ UNCHANGED <<inputs, own, accepted, outcome, result, verdict, registry>>
 
 Next == SignResult \/ Collect \/ GateReject \/ GatePass \/ NotAwaiting \/ AssembleFails \/ Assemble
-           \/ Precheck \/ Submit \/ Approve \/ RegisterSigner
+           \/ Precheck \/ Submit \/ Superseded \/ Approve \/ RegisterSigner
 Spec == Init /\ [][Next]_vars
 
 Terminal == pc \in {"failed", "aborted", "done"}
@@ -424,6 +432,7 @@ GatePassed == pc \in {"state", "precheck", "submit", "challenge", "registered", 
              \/ (pc = "failed" /\ outcome # "too few signatures")
 HasResult == pc \in {"precheck", "submit", "challenge", "registered", "done"}
              \/ (pc = "failed" /\ outcome \in {"invalid DKG result", "Unexpected submitter index"})
+             \/ (pc = "aborted" /\ outcome = "superseded while waiting")
 HasVerdict == HasResult /\ pc # "precheck"
 
 \* C40: the assembled result satisfies the static checks
